@@ -434,16 +434,32 @@ pub(crate) fn round(val: f64, kwargs: Kwargs, _: &State) -> TeraResult<Value> {
         10.0_f64.powi(precision)
     };
 
-    match method {
-        Some("ceil") => Ok(((multiplier * val).ceil() / multiplier).into()),
-        Some("floor") => Ok(((multiplier * val).floor() / multiplier).into()),
-        None => Ok(((multiplier * val).round() / multiplier).into()),
-        Some(m) => Err(Error::message(format!(
-            "Invalid argument for `method`: {m}. \
+    let rounded = match method {
+        Some("ceil") => (multiplier * val).ceil() / multiplier,
+        Some("floor") => (multiplier * val).floor() / multiplier,
+        None => (multiplier * val).round() / multiplier,
+        Some(m) => {
+            return Err(Error::message(format!(
+                "Invalid argument for `method`: {m}. \
                 Only `ceil` and `floor` are allowed. \
                 Do not fill this parameter if you want a classic round."
-        ))),
+            )));
+        }
+    };
+
+    // With extreme precisions the scaling overflows/underflows: we don't want to return NaN/inf
+    // for a finite number
+    if val.is_finite() && !rounded.is_finite() {
+        if precision > 0 && !(multiplier * val).is_finite() {
+            // Nothing to round that far after the decimal point
+            return Ok(val.into());
+        }
+        return Err(Error::message(format!(
+            "Invalid argument for `precision`: cannot round {val} with a precision of {precision}"
+        )));
     }
+
+    Ok(rounded.into())
 }
 
 /// Returns the first element of an array. None if the array is empty
